@@ -531,10 +531,11 @@ def _d6(chk, fb):
 
 
 def _d7(chk, fb):
-    """output coverage: resize() keeps what the storage held, so a kernel that resizes its output and then assigns entries with '='
-    must assign every entry.  For every shape of a small grid on which the kernel does not throw, the rectangles of (row, column)
-    pairs written by the assigning statements cover [0, rows) x [0, cols).  Refuted with the shape and a missing cell; a kernel
-    whose assignments sit under data tests or whose index ranges are not exact is not judged"""
+    """output coverage: resize() keeps what the storage held (and gives new elements their default state), so a kernel that
+    resizes its output and then assigns entries must assign every entry.  For every shape of a small grid on which the kernel
+    does not throw, the index boxes written by the assigning statements - 'O(i, j) = ...' for a matrix output, 'vO[k] = ...' or
+    vO[k] handed to another kernel as its output for a vector output - cover the whole index range.  Refuted with the shape and
+    a missing entry; a kernel whose assignments sit under data tests or whose index ranges are not exact is not judged"""
     from . import e2
     import itertools
     S = e2.sp()
@@ -542,13 +543,14 @@ def _d7(chk, fb):
     for f in sorted(_kernels(fb), key=lambda x: x.key):
         if f.name in KNOWN_SKIPS:
             continue
-        outs = [p_ for p_ in f.params if "Matrix" in (p_.get("ty") or "") and p_["ty"].endswith("&") and not p_["ty"].startswith("const ") and "vector" not in p_["ty"]]
+        outs = [p_ for p_ in f.params if p_.get("ty", "").endswith("&") and not p_["ty"].startswith("const ") and ("Matrix" in p_["ty"] or "vector" in p_["ty"])]
         if not outs:
             continue
         fun = e2.Fun(fb, f)
         allsites = list(e2.sites(fun))
         for O in outs:
-            resized = [c for c in f.calls() if c["callee"]["name"] == "resize" and "obj" in c and render(f.obj(c)) == O["name"]]
+            isvec = "vector" in O["ty"]
+            resized = [c for c in f.calls() if c["callee"]["name"] == "resize" and "obj" in c and render(f.obj(c)) == O["name"] and len(f.args(c)) == (1 if isvec else 2)]
             if not resized:
                 continue
             info = []
@@ -558,48 +560,64 @@ def _d7(chk, fb):
                     bad = "%s is handed to %s (%s), which may assign entries" % (O["name"], c["callee"]["name"], f.loc(c))
                     break
             for c, cont, idxs, kind in ([] if bad else allsites):
-                if kind != "matrix" or len(idxs) != 2 or render(cont) != O["name"]:
+                if kind != ("vector" if isvec else "matrix") or len(idxs) != (1 if isvec else 2) or render(cont) != O["name"]:
                     continue
                 par = f.parent.get(c["id"])
-                while par is not None and par["k"] in ("ImplicitCastExpr", "ParenExpr"):
+                while par is not None and par["k"] in ("ImplicitCastExpr", "ParenExpr", "MaterializeTemporaryExpr"):
                     par = f.parent.get(par["id"])
-                if par is None or par["k"] != "BinaryOperator" or par.get("op") != "=" or strip(kids(par)[0]) is not strip(c):
+                written = par is not None and par["k"] == "BinaryOperator" and par.get("op") == "=" and strip(kids(par)[0]) is strip(c)
+                if not written and isvec and par is not None and is_call(par):
+                    if par["callee"]["name"] == "operator=" and "obj" in par and strip(f.obj(par)) is strip(c):
+                        written = True
+                    else:
+                        pt = par["callee"].get("ptypes") or []
+                        for k_, a_ in enumerate(f.args(par)):
+                            if strip(a_) is strip(c) and k_ < len(pt) and pt[k_].endswith("&") and not pt[k_].startswith("const "):
+                                written = True
+                if not written:
                     continue
-                br, bc = fun.index_bounds(idxs[0], c), fun.index_bounds(idxs[1], c)
+                bs = [fun.index_bounds(ix, c) for ix in idxs]
                 rels, unparsed = fun.facts(c)
                 cl, why = fun.control(c)
-                if br is None or bc is None or unparsed or why or "~approx" in br[2] or "~approx" in bc[2] or any(k_.startswith("~") for k_ in list(br[2]) + list(bc[2])):
+                if any(b_ is None for b_ in bs) or unparsed or why or any(k_.startswith("~") for b_ in bs for k_ in b_[2]):
                     bad = "an assigning statement (%s) has an index range or a guard this rule cannot make exact" % f.loc(c)
                     break
-                info.append((c, br, bc, rels, dict(cl)))
+                info.append((c, bs, rels, dict(cl)))
+            con = "output-coverage:" + O["name"]
             if bad or not info:
                 if bad:
                     n += 1
-                    chk.unknown("D7", f.key, "output-coverage:" + O["name"], f.loc(resized[0]), bad)
+                    chk.unknown("D7", f.key, con, f.loc(resized[0]), bad)
                 continue
             dims = fun.dims(f.obj(info[0][0]), info[0][0])
-            if not dims or dims[0] is None or dims[1] is None or fun.local_atoms:
+            nd = 1 if isvec else 2
+            if not dims or any(dims[k_] is None for k_ in range(nd)) or fun.local_atoms:
                 continue
+            dims = list(dims[:nd])
             n += 1
-            base = min(info, key=lambda x: len(x[3]))[3]
+            base = min(info, key=lambda x: len(x[2]))[2]
             el = e2._elimination(S, base)
 
             def red(x):
                 for sym, val in el:
                     x = x.subs(sym, val)
                 return x
-            syms = set((red(dims[0]) + red(dims[1])).free_symbols)
-            for c, br, bc, rels, cl in info:
+            syms = set()
+            for d_ in dims:
+                syms |= red(d_).free_symbols
+            for c, bs, rels, cl in info:
                 for r in rels:
                     rr = red(r)
                     syms |= rr.free_symbols if hasattr(rr, "free_symbols") else set()
-                for a_, b_ in list(cl.values()) + list(br[2].values()) + list(bc[2].values()):
-                    syms |= red(a_ - b_).free_symbols
-                syms |= red(br[0] + br[1] + bc[0] + bc[1]).free_symbols
+                for b_ in bs:
+                    syms |= red(b_[0] + b_[1]).free_symbols
+                    for a_, z_ in b_[2].values():
+                        syms |= red(a_ - z_).free_symbols
+                for a_, z_ in cl.values():
+                    syms |= red(a_ - z_).free_symbols
             for _, v_ in el:
                 syms |= red(v_).free_symbols
             syms = sorted(syms, key=str)
-            con = "output-coverage:" + O["name"]
             if len(syms) > 5:
                 chk.unknown("D7", f.key, con, f.loc(resized[0]), "too many size symbols (%d)" % len(syms))
                 continue
@@ -612,35 +630,37 @@ def _d7(chk, fb):
                         continue
                     if not all(int(red(v_).subs(env)) >= 0 for _, v_ in el):
                         continue
-                    R, C = int(red(dims[0]).subs(env)), int(red(dims[1]).subs(env))
-                    if R <= 0 or C <= 0 or R > 6 or C > 6:
+                    shape = [int(red(d_).subs(env)) for d_ in dims]
+                    if any(x <= 0 or x > 6 for x in shape):
                         continue
                     covered = set()
-                    for c, br, bc, rels, cl in info:
+                    for c, bs, rels, cl in info:
                         if not all(bool(red(r).subs(env)) for r in rels):
                             continue
-                        loops = dict(cl); loops.update(br[2]); loops.update(bc[2])
-                        if not all(int(red(b_ - a_).subs(env)) > 0 for a_, b_ in loops.values()):
+                        loops = dict(cl)
+                        for b_ in bs:
+                            loops.update(b_[2])
+                        if not all(int(red(z_ - a_).subs(env)) > 0 for a_, z_ in loops.values()):
                             continue
-                        r0, r1 = int(red(br[0]).subs(env)), int(red(br[1]).subs(env))
-                        c0, c1 = int(red(bc[0]).subs(env)), int(red(bc[1]).subs(env))
-                        covered |= {(i_, j_) for i_ in range(max(r0, 0), r1 + 1) for j_ in range(max(c0, 0), c1 + 1)}
+                        rngs = [range(max(int(red(b_[0]).subs(env)), 0), int(red(b_[1]).subs(env)) + 1) for b_ in bs]
+                        covered |= set(itertools.product(*rngs))
                     checked += 1
-                    missing = [(i_, j_) for i_ in range(R) for j_ in range(C) if (i_, j_) not in covered]
+                    missing = [cell for cell in itertools.product(*[range(x) for x in shape]) if cell not in covered]
                     if missing:
-                        miss = (env, R, C, missing[0])
+                        miss = (env, shape, missing[0])
                         break
-            except (TypeError, ValueError) as ex:
+            except (TypeError, ValueError):
                 if os.environ.get("BPPVERIF_DEBUG"):
-                    import traceback; traceback.print_exc()
+                    import traceback
+                    traceback.print_exc()
                 chk.unknown("D7", f.key, con, f.loc(resized[0]), "bounds not evaluable on the shape grid")
                 continue
             if miss:
-                env, R, C, cell = miss
+                env, shape, cell = miss
                 chk.refuted("D7", f.key, con, f.loc(resized[0]),
-                            "%s resizes %s to %dx%d for the shape %s and assigns its entries, but entry (%d, %d) is assigned by no statement: it keeps whatever the output matrix held before the call" % (
-                                f.name, O["name"], R, C, {str(k_): v_ for k_, v_ in env.items()}, cell[0], cell[1]),
-                            witness={"shape": {str(k_): v_ for k_, v_ in env.items()}, "cell": list(cell), "history": "an output matrix that already holds non-zero data"})
+                            "%s resizes %s to %s for the shape %s and assigns its entries, but entry %s is assigned by no statement: it keeps whatever the output held before the call (or stays empty)" % (
+                                f.name, O["name"], "x".join(str(x) for x in shape), {str(k_): v_ for k_, v_ in env.items()}, tuple(cell)),
+                            witness={"shape": {str(k_): v_ for k_, v_ in env.items()}, "cell": list(cell), "history": "an output that already holds data of another shape"})
             elif checked:
                 chk.proved("D7", f.key, con, f.loc(resized[0]), "on %d shapes of the grid every entry of %s is assigned" % (checked, O["name"]))
             else:
